@@ -759,11 +759,48 @@ func c17Worker(w *core.WorkerCtx) {
 			pre = append(pre, t)
 			ops = append(ops, c17Save(h, 100, t))
 		}
+		// every fourth history: one address holds a long list in which the entries of one or two transactions have
+		// expired (dangling references that the next read cleans up); readers of that list and clients that save new
+		// transactions for the same address start together
+		dangling := hi%4 == 1
+		if dangling {
+			k = 6 + rng.Intn(3)
+			for i := 0; i < 30+rng.Intn(20); i++ {
+				seq++
+				t := mkTrx(actors[1+rng.Intn(len(actors)-1)], actors[0].Addr, seq)
+				pre = append(pre, t)
+				ops = append(ops, c17Save(h, 100, t))
+			}
+			for e := 0; e < 1+rng.Intn(2); e++ {
+				t := pre[len(pre)-1-rng.Intn(20)]
+				op := c17Op{Client: 100, Kind: "remove", Trx: ledger.HexFull(t.Hash), Issuer: t.IssuerAddress, Recv: t.ReceiverAddress, Addr: t.ReceiverAddress}
+				op.Call = c17Now()
+				err := h.VerifExpire(t.Hash)
+				op.Ret = c17Now()
+				op.Res = "notfound"
+				if err == nil {
+					op.Res = "ok"
+				}
+				ops = append(ops, op)
+				w.R.Count("c17_expiries_injected_before_a_race", 1)
+			}
+		}
 		perG := 3 + rng.Intn(5)
 		plans := make([][]func(c int) c17Op, k)
 		for g := 0; g < k; g++ {
 			grng := rand.New(rand.NewSource(rng.Int63()))
 			var mine []*transaction.Transaction
+			if dangling {
+				if g%2 == 0 {
+					a := actors[0].Addr
+					plans[g] = append(plans[g], func(c int) c17Op { return c17Read(h, c, a) })
+				} else {
+					seq++
+					t := mkTrx(actors[1+grng.Intn(len(actors)-1)], actors[0].Addr, seq)
+					mine = append(mine, t)
+					plans[g] = append(plans[g], func(c int) c17Op { time.Sleep(time.Duration(5+10*g) * time.Microsecond); return c17Save(h, c, t) })
+				}
+			}
 			for i := 0; i < perG; i++ {
 				switch x := grng.Intn(10); {
 				case x < 5:
